@@ -41,6 +41,10 @@ def check(tree, rep, tier='quick', seed=0):
     rep.assumptions = ['NOT decided (no sound static argument in reach): "more wages never lower total tax" and "a larger deduction never raises it" - monotonicity through data-dependent switches (itemize vs standard, credit phase-outs, not-implemented cliffs)',
                        'floating-point re-association of sums of cent-rounded amounts under renumbering is not modelled']
     an = get_analysis(tree)
+    from ..linerules import l2c_generators_consumed_once
+    l2c_generators_consumed_once(tree, rep)      # a second pass over an exhausted generator adds nothing: the dollars withheld in the second state box never arrive
+    from .c02 import year_siblings
+    year_siblings(an, rep)                       # the relations below are decided per year: a year that stops agreeing with its sibling years is looked at first
     listing = [re.compile(p) for p in load_data('listing_lines.json')['patterns']]
     chain = load_data('withholding_chain.json')
     sym_exc = {e['line'] for e in load_data('symmetry_exceptions.json')}
